@@ -1,6 +1,7 @@
 package world
 
 import (
+	"sort"
 	"bytes"
 	"fmt"
 	"strings"
@@ -252,6 +253,14 @@ func genC17(g *Gen, idx int) *Plan {
 		}
 		// the scripted gateway must not answer the client's PUBREC itself in this scenario
 		p.SGW.Rules = append(p.SGW.Rules, SGWRule{On: "PUBREC", Act: "ignore"})
+	}
+	if g.Bool(0.12) {
+		// the gateway never acknowledges a PUBLISH and disconnects the client while the call waits:
+		// the call must not report success
+		p.Family = "C17-gw-disconnect"
+		p.Cfg.SN.Rules = nil
+		p.SGW.Rules = []SGWRule{{On: "PUBLISH", Act: "ignore"}}
+		p.SGW.Ops = []PeerOp{{AtMs: g.Range(300, 2500), Pkt: refsn.Pkt{Type: refsn.DISCONNECT}}}
 	}
 	p.Cfg.HorizonMs = 4000 + int64(n+4)*(int64(budget)+2)*cp.RetryDelayMs*2
 	return p
@@ -599,6 +608,7 @@ func oracleC28(v *View, vd *Verdict) {
 					left = append(left, shortFn(f))
 				}
 			}
+			sort.Strings(left) // (the runtime lists goroutines in no particular order)
 			if len(left) > 0 {
 				vd.Add("C28", "C28/goroutines-survive-shutdown/"+left[0], "client %s stopped at %d but %d client goroutines are alive at %d: %v", cp.Name, stopT, len(left), endT, left)
 			}
@@ -688,7 +698,20 @@ func genC28(g *Gen, idx int) *Plan {
 	cp.Ops = ops
 	// gateway behaviour
 	classOf := map[string]string{"register": "REGISTER", "subscribe": "SUBSCRIBE", "unsubscribe": "UNSUBSCRIBE", "publish1": "PUBLISH", "publish2": "PUBLISH", "ping": "PINGREQ", "sleep": "DISCONNECT", "disconnect": "DISCONNECT", "close": "DISCONNECT", "publish0": "PUBLISH"}
-	switch g.Intn(9) {
+	switch g.Intn(10) {
+	case 9: // a REGISTER from the gateway that the client must refuse (a name it knows, under another id), then more work
+		reg := []ClientOp{{Op: "dial"}, {Op: "connect"}, {GapMs: g.Range(20, 300), Op: "register", Topic: namePool[0]}, {GapMs: g.Range(20, 300), Op: "register", Topic: namePool[1]}}
+		rest := []ClientOp{mk(call)}
+		rest[0].GapMs = g.Range(1800, 2500)
+		rest = append(rest, ClientOp{GapMs: g.Range(20, 400), Op: "publish", Topic: namePool[1], QoS: uint8(g.Intn(3)), Payload: []byte("after")})
+		if call != "close" && call != "disconnect" {
+			rest = append(rest, ClientOp{GapMs: g.Range(20, 500), Op: "close"})
+		}
+		cp.Ops = append(append(reg, rest...), ClientOp{Op: "wait"})
+		p.SGW.Ops = append(p.SGW.Ops, PeerOp{AtMs: g.Range(1200, 1500), Pkt: refsn.Pkt{Type: refsn.REGISTER, MsgID: 77, TopicID: 0x0777, TopicName: namePool[g.Intn(2)]}})
+		if g.Bool(0.5) {
+			p.SGW.Ops = append(p.SGW.Ops, PeerOp{AtMs: g.Range(1510, 1700), Pkt: refsn.Pkt{Type: refsn.REGISTER, MsgID: 78, TopicID: 0x0778, TopicName: "brand/new"}})
+		}
 	case 6: // answers a retransmittable step with the *previous* acknowledgement again, every time
 		switch g.Intn(3) {
 		case 0: // PUBREC again for every PUBREL (no PUBCOMP ever)
@@ -803,7 +826,12 @@ func oracleC33(v *View, vd *Verdict) {
 		}
 		state := "disconnected"
 		var activeSince, lastPing int64 = -1, -1
-		lossy := len(v.R.Plan.Cfg.SN.Rules) > 0 || (v.R.Plan.SGW != nil && (len(v.R.Plan.SGW.Rules) > 0 || v.R.Plan.SGW.SilentAtMs > 0))
+		lossy := v.R.Plan.SGW != nil && (len(v.R.Plan.SGW.Rules) > 0 || v.R.Plan.SGW.SilentAtMs > 0)
+		for _, r := range v.R.Plan.Cfg.SN.Rules {
+			if r.Act != "delay" {
+				lossy = true // (a datagram that is merely late, by less than a retry delay, loses nothing)
+			}
+		}
 		// once an API call has failed the client's goroutine group is cancelled: nothing more is owed
 		deadIdx := int(^uint(0) >> 1)
 		for _, a := range apiCalls(v) {
@@ -868,6 +896,36 @@ func oracleC33(v *View, vd *Verdict) {
 			}
 			if v.R.SimNs-int64(6e9)-ref > ka+cp.RetryDelayMs*nsMs+20*nsMs+v.R.StalledNs {
 				vd.Add("C33", "C33/keepalive-gap/tail", "client %s: active since %d, last keep-alive PINGREQ at %d, none until %d (KeepAlive %d ms)", cp.Name, activeSince, lastPing, v.R.SimNs, cp.KeepAliveMs)
+			}
+		}
+		// ... nor cuts it short: a Sleep(d) that returned nil slept for d and woke up with PINGREQ(client id)
+		if !lossy {
+			for _, a := range apiCalls(v) {
+				if a.client != cp.Name || a.op != "sleep" || !a.returned || a.err != "nil" {
+					continue
+				}
+				var d int64
+				for _, op := range cp.Ops {
+					if op.Op == "sleep" {
+						d = op.DurMs * nsMs // (all Sleep calls of a plan are judged by the shortest duration)
+						break
+					}
+				}
+				for _, op := range cp.Ops {
+					if op.Op == "sleep" && op.DurMs*nsMs < d {
+						d = op.DurMs * nsMs
+					}
+				}
+				woke := false
+				for _, e := range clientTx(v, cp.Name) {
+					if e.Idx > a.invIdx && e.Idx < a.retIdx && e.SNErr == nil && e.SN.Type == refsn.PINGREQ && len(e.SN.Data) > 0 {
+						woke = true
+					}
+				}
+				if a.retT-a.invT < d-20*nsMs || !woke {
+					vd.Add("C33", "C33/sleep-cut-short", "client %s: %s returned nil after %d ms (wake-up PINGREQ sent: %v) with keep-alive %d ms", cp.Name, a.desc, (a.retT-a.invT)/nsMs, woke, cp.KeepAliveMs)
+					break
+				}
 			}
 		}
 		// a keep-alive exchange never makes a concurrent API call fail (answering gateway)
@@ -944,6 +1002,12 @@ func genC33(g *Gen, idx int) *Plan {
 	if g.Bool(0.3) || losePing {
 		// lost PINGRESP: retransmissions
 		p.Cfg.SN.Rules = append(p.Cfg.SN.Rules, Rule{Dir: "g2c", Class: "PINGRESP", Skip: g.Intn(2), Count: int(g.Range(1, 2)), Act: "drop"})
+	} else if g.Bool(0.35) {
+		// a slow path for PINGRESPs only: the answer to a keep-alive ping arrives after the answer to the
+		// Sleep/Disconnect/Publish that was called right after the tick
+		p.Family += "-late-pingresp"
+		p.Cfg.SN.FIFO = false
+		p.Cfg.SN.Rules = append(p.Cfg.SN.Rules, Rule{Dir: "g2c", Class: "PINGRESP", Count: 1000, Act: "delay", DelayMs: g.Range(30, cp.RetryDelayMs*8/10)})
 	}
 	p.Cfg.HorizonMs = used + 8000 + 3*ka
 	return p
@@ -951,7 +1015,7 @@ func genC33(g *Gen, idx int) *Plan {
 
 func init() {
 	Register(&Check{ID: "C17", Level: "fault_enumeration",
-		Rule:   "real client library against the scripted gateway; per packet class (PUBLISH, PUBREL, SUBSCRIBE from the client; PUBACK, PUBREC, PUBCOMP, SUBACK to it) a planned rule drops the first j (1..RetryCount+1, i.e. within and beyond the budget), duplicates or delays occurrences; gateway-initiated QoS 2 with repeated PUBREL after completion; non-trivial = a retransmission, a PUBREL received or an acknowledged/unacknowledged Publish judged",
+		Rule:   "real client library against the scripted gateway; per packet class (PUBLISH, PUBREL, SUBSCRIBE from the client; PUBACK, PUBREC, PUBCOMP, SUBACK to it) a planned rule drops the first j (1..RetryCount+1, i.e. within and beyond the budget), duplicates or delays occurrences; gateway-initiated QoS 2 with repeated PUBREL after completion; in 12 % of the runs the gateway never acknowledges and sends DISCONNECT while the call waits (the call must not report success); non-trivial = a retransmission, a PUBREL received or an acknowledged/unacknowledged Publish judged",
 		Gen:    genC17, Oracle: oracleC17, Quick: 800, Thorough: 60000})
 	Register(&Check{ID: "C27", Level: "exploration",
 		Rule:   "filters and topic names over {a,b,'',+,#} up to 3 levels (empty levels, trailing '/', '#' at parent level), subscribe/unsubscribe histories of 2-8 calls, the scripted gateway delivers PUBLISHes (QoS 0/1 on receipt, QoS 2 on PUBREL) between the calls; judged with refmqtt.Match; deliveries that race an in-flight Subscribe/Unsubscribe are don't-care; non-trivial = at least one delivery judged",
@@ -960,7 +1024,7 @@ func init() {
 		Rule:   "for each of 10 API calls (register, subscribe, unsubscribe, publish QoS 0/1/2, ping, sleep, disconnect, close) x 9 gateway behaviours (answering, silent for the call's packet class, silent for a later step, silent forever from an instant, unsolicited packets of random types, DISCONNECT from the gateway, the previous acknowledgement repeated for every retransmittable step / every acknowledgement twice / CONNACK again and again, DISCONNECT repeated for minutes incl. while the client sleeps, an API call in a wrong state (Sleep before Connect) followed by a DISCONNECT from the gateway), KeepAlive on/off; bound per call from ConnectTimeout/RetryDelay/RetryCount/sleep duration + 50 ms; goroutine census of client frames after Close/DISCONNECT; non-trivial = every run",
 		Gen:    genC28, Oracle: oracleC28, Quick: 800, Thorough: 40000})
 	Register(&Check{ID: "C33", Level: "exploration",
-		Rule:   "KeepAlive 2-6 s, RetryDelay < KeepAlive; Sleep/Publish/Ping/Register/Subscribe/Disconnect placed at k*KeepAlive +- {0,1,2,20,300} ms, Sleep also one RetryDelay (less a round trip) after a tick whose ping stays unanswered, yield focus on keepaliveLoop/Ping/sleep transaction, optionally the first PINGRESPs lost; the client's own state changes are recorded from its log; keep-alive PINGREQs (those without client id) must not be sent after the client has logged asleep/disconnected, gaps while active <= KeepAlive + RetryDelay + 20 ms, no API call may fail or hang against an answering gateway; non-trivial = a keep-alive PINGREQ was sent",
+		Rule:   "KeepAlive 2-6 s, RetryDelay < KeepAlive; Sleep/Publish/Ping/Register/Subscribe/Disconnect placed at k*KeepAlive +- {0,1,2,20,300} ms, Sleep also one RetryDelay (less a round trip) after a tick whose ping stays unanswered, yield focus on keepaliveLoop/Ping/sleep transaction, optionally the first PINGRESPs lost or every PINGRESP late by 30 ms..0.8 RetryDelay (it arrives after the answer to the call made right after the tick); the client's own state changes are recorded from its log; keep-alive PINGREQs (those without client id) must not be sent after the client has logged asleep/disconnected, gaps while active <= KeepAlive + RetryDelay + 20 ms, no API call may fail or hang against an answering gateway, a Sleep(d) that returns nil lasted d and sent the wake-up PINGREQ; non-trivial = a keep-alive PINGREQ was sent",
 		Gen:    genC33, Oracle: oracleC33, Quick: 800, Thorough: 40000})
 }
 
